@@ -29,6 +29,7 @@ META = {
     "trusted_base": ["RFC 8392 section 3/4, RFC 8152 section 11.2 as transcribed in spec/", "std Vec::reverse, Vec::remove, Rev<Range>",
                      "ciborium data model"],
 }
+META["decides"] += " (As built: the KDF context's trailing byte strings and its encoder are decided as sequence values; shares C08's frame rule.)"
 
 CLAIMS_DEC = "<cwt::ClaimsSet as common::AsCborValue>::from_cbor_value"
 CENSUS = {
